@@ -81,17 +81,18 @@ func parseCtors(pkg *packages.Package, theTyp types.Type, typName string) []*Fie
 }
 
 func (g *Generator) makeCtorMatch() {
-	hasNonZero := makeCtorMatch(g, g.exportedFields, g.destCtorParams, g.srcTagMap, g.writeDestSet)
+	hasNonZero := makeCtorMatch(g, g.exportedFields, g.destCtorParams, g.srcTagMap, false, g.writeDestSet)
 	if hasNonZero {
 		g.data.DestCtorParams = g.destCtorParams
 	}
-	hasNonZero = makeCtorMatch(g, g.destExportedFields, g.srcCtorParams, nil, g.writeSrcSet)
+	hasNonZero = makeCtorMatch(g, g.destExportedFields, g.srcCtorParams, g.srcTagMap, true, g.writeSrcSet)
 	if hasNonZero {
 		g.data.SrcCtorParams = g.srcCtorParams
 	}
 }
 
-func makeCtorMatch(g *Generator, expFields []*Field, ctorParams []*Field, tagMap map[string]string, writeSet shoot.Set[string]) bool {
+// paramIsSrc: the parameters belong to the source type (FromX); the tag map renames SOURCE names
+func makeCtorMatch(g *Generator, expFields []*Field, ctorParams []*Field, tagMap map[string]string, paramIsSrc bool, writeSet shoot.Set[string]) bool {
 	if len(ctorParams) == 0 {
 		return false
 	}
@@ -104,7 +105,11 @@ func makeCtorMatch(g *Generator, expFields []*Field, ctorParams []*Field, tagMap
 				continue
 			}
 
-			if !canNameMatch(f, p, tagMap, g.flags.ignoreCase) {
+			f1, f2 := f, p
+			if paramIsSrc {
+				f1, f2 = p, f
+			}
+			if !canNameMatch(f1, f2, tagMap, g.flags.ignoreCase) {
 				continue
 			}
 
